@@ -60,6 +60,14 @@ type Entity struct {
 	Tags  []string       `json:"tags"`
 	Extra map[string]any `json:"extra,omitempty"`
 	Pad   string         `json:"pad,omitempty"`
+	// fields named like the words of the state protocol: they are the
+	// entity's own business and mean nothing to the envelope around it
+	Control   string            `json:"control,omitempty"`
+	Operation string            `json:"operation,omitempty"`
+	Offset    string            `json:"offset,omitempty"`
+	Headers   map[string]string `json:"headers,omitempty"`
+	Type      string            `json:"type,omitempty"`
+	Key       string            `json:"key,omitempty"`
 }
 
 type RT struct {
@@ -80,6 +88,9 @@ type RT struct {
 	TypeName string  `json:"type_name,omitempty"` // WithEntityType
 	Offset   string  `json:"offset,omitempty"`    // control messages
 	Pad      int     `json:"pad,omitempty"`       // extra bytes in the entity (buffer-size boundaries)
+	// Proto 1-4: the entity carries fields named like protocol words
+	// (control, operation, offset, headers, type, key) with protocol-like values.
+	Proto int `json:"proto,omitempty"`
 }
 
 type RTCase struct {
@@ -112,6 +123,18 @@ func entityOf(r RT) Entity {
 	}
 	if r.Pad > 0 {
 		e.Pad = strings.Repeat("p", r.Pad)
+	}
+	switch r.Proto {
+	case 1:
+		e.Control = "reset"
+	case 2:
+		e.Control, e.Offset = "manual", "upstream-17"
+		e.Headers = map[string]string{"control": "reset", "operation": "delete"}
+	case 3:
+		e.Type, e.Key, e.Operation = "ghost", "zz", "delete"
+	case 4:
+		e.Control, e.Operation = "snapshot-end", "insert"
+		e.Headers = map[string]string{"control": "snapshot-start"}
 	}
 	return e
 }
